@@ -33,7 +33,18 @@ CFG = {'streams': [{'name': 'C02',
                 '(level-0 forcing lemma, no re-entry) and finds one definition per (node, name) because strict succeeded; pending edge/attr '
                 'statements denote the graph operations strict already performed, and edge insertions commute in front of attribute insertions. '
                 '(2) building blocks: both interpreters bind captures and regex captures identically; thunks are forced at most once and cycles are '
-                'reported. (3) K7: the full statement is refuted for cyclic scoped-variable definitions (and Proofs/SL2Example.v k7b: the cycle may '
+                'reported. (2b) strict_fail_lazy_fail_partial, the FAILURE direction on the fragment without scoped variables: if strict execution '
+                'returns Err e whose root cause is neither UndefinedEdge nor Cancelled, lazy execution of the same file on the same matches returns '
+                'Ok for NO lazy fuel (extra hypotheses, true of the standard library: a failing call fails on every graph; every function only '
+                'extends the graph); strict_fail_lazy_err_partial: with the hypotheses of lazy_exec_no_panic the lazy run IS Err unless the model '
+                'runs out of fuel. Covered: type errors in eager positions (conditions, scan subjects, loop lists) and deferred positions (edge '
+                'endpoints, attribute targets), conflicting attributes, duplicate/immutable/undefined local variables, failing or unknown '
+                'functions also inside values nothing reads (evaluate_all forces every thunk), regex captures out of range. Proof: a failure in a '
+                'deferred position leaves a DOOMED lazy state (a recorded statement or thunk that cannot be evaluated, or an attribute that '
+                'conflicts with the strict graph); every later lazy computation preserves doom and the evaluation phase of a doomed state cannot '
+                'succeed (the strict insertions are replayed on a graph that extends the strict one, whatever edges came first). UndefinedEdge is '
+                'excluded because it IS order dependent (strict_fail_lazy_ok_undefined_edge: `attr (a -> b) k = 1  edge a -> b` fails strictly, '
+                'succeeds lazily). (3) K7: the full statement is refuted for cyclic scoped-variable definitions (and Proofs/SL2Example.v k7b: the cycle may '
                 'go through local variables, so definition scopes must be DEEPLY pure). Direct stream: File::execute strict vs '
                 'lazy on every generated fragment program. Correspondence: lazy implementation vs Model/Lazy.v.',
  'partial': ['strict_lazy_agree is proved only on the fragments of strict_lazy_same_graph_partial and strict_lazy_same_graph_scoped_partial; NOT '
@@ -43,7 +54,13 @@ CFG = {'streams': [{'name': 'C02',
              'made before the read); `(node)` calls inside expressions, where only isomorphism instead of equality can hold; an arbitrary '
              'interleaving of the matches of different stanzas as the merged file query reports them (the theorems feed the lazy run the strict '
              'matches stanza by stanza); debug attributes and cancellation budgets',
-             'strict_fail_lazy_fail (the failure direction) is not proved; explored by the direct stream'],
+             'strict_fail_lazy_fail (the failure direction) is proved only on the fragment WITHOUT scoped variables (strict_fail_lazy_fail_partial), '
+             'for root causes other than UndefinedEdge (order dependent) and Cancelled, with the lazy run fed the strict matches stanza by stanza, '
+             'no debug attributes, no cancellation budget; the conclusion is "lazy never returns Ok" (plus "returns Err unless the model runs out '
+             'of fuel" under the no-panic hypotheses): "lazy returns Err from some fuel on" is false in the model, because lazy execution goes on '
+             'after the failure point and the statements it then runs may diverge (strict_fail_lazy_diverges_k2: a fragment program on which strict '
+             'fails at the first statement and lazy runs out of EVERY fuel in a recursive shorthand, K2). NOT proved: the failure direction '
+             'with scoped variables (explored by the direct stream)'],
  'assumptions': ['tree-sitter queries are an external: raw matches are recorded by calling QueryCursor::matches directly on the stanza queries and '
                  'on the merged file query',
                  'regex crate: modelled by Model/Regex.v on the generated sub-language (validated by stream C10rx); stdlib functions: Model/Stdlib.v '
